@@ -56,7 +56,12 @@ func c16Program() *hs.Program {
 				&hs.For{Var: "x", Iter: hs.CallN("items"), Body: hs.Blk(nil, hs.ES(&hs.If{Cond: hs.Bin(">", hs.V("x"), hs.V("n")), Then: hs.Blk(nil, &hs.Return{X: hs.V("x")})}))}), hs.P("n", intT)),
 			// heap state reachable from a global persists from call to call
 			hs.Fn("grow", intT, hs.Blk(hs.MCall(hs.V("ITEMS"), "len"), hs.ES(hs.MCall(hs.V("ITEMS"), "push", hs.I(40))))),
-			hs.Fn("caught", intT, hs.Blk(&hs.Try{Body: hs.Blk(hs.I(1), hs.ES(hs.CallN("throw", hs.S("inner")))), Var: "e", Catch: hs.Blk(hs.I(7))})),
+			// an exception raised and caught in the same frame while operands are pending inside and
+			// outside the try: 100 + (try { 10 + <throws> } catch { 7 }) == 107
+			hs.Fn("caught", intT, hs.Blk(hs.Bin("+", hs.I(100), &hs.Try{
+				Body:  hs.Blk(hs.Bin("+", hs.I(10), &hs.If{Cond: hs.Bin(">=", hs.V("counter"), hs.I(0)), Then: hs.Blk(hs.I(1), hs.ES(hs.CallN("throw", hs.S("inner")))), Else: hs.Blk(hs.I(2))})),
+				Var:   "e",
+				Catch: hs.Blk(hs.I(7))}))),
 		},
 	}
 }
